@@ -9,6 +9,9 @@ open Xgi Xgi.HG
 def stepS (b : Bool) (t : HG) : HG × Outcome := if b then (t, .ok) else guardF t (removeEdgesFrom t (singletons t))
 def stepI (a : Bool) (t : HG) : HG × Outcome := if a then (t, .ok) else guardF t (removeNodesFrom t (isolates t) false true)
 def stepC (d : Bool) (t : HG) : HG × Outcome := if d then lccInPlace' t else (t, .ok)
+
+/-- the connected step of C19/Derived.lean is the shared model's `HG.lccInPlace` -/
+theorem lccInPlace'_eq (t : HG) : lccInPlace' t = lccInPlace t := rfl
 def stepR (e : Bool) (t : HG) : HG × Outcome := if e then relabel t "label" else (t, .ok)
 
 theorem cleanup'_eq (s : HG) (a b c d e : Bool) :
